@@ -42,6 +42,8 @@ def gen_model(r, *, budget=6000, max_T=4, force=None):
     {"f1", "mixed", "stoch", "filter", "constraint", "cont2", "nofilter", "aux"}."""
     force = set(force or ())
     meta = {}
+    collide = "collide" in force
+    noperiod = "noperiod" in force
     T = r.choice([1, 2, 2, 3, 3, 4][: max(1, max_T + 2)])
     T = min(T, max_T)
     if "f1" in force and T < 2:
@@ -146,18 +148,18 @@ def gen_model(r, *, budget=6000, max_T=4, force=None):
         aargs = r.sample(allv, k=min(len(allv), r.randint(1, 2)))
         if aux and r.random() < 0.5:
             aargs.append(aux[-1])
-        if r.random() < 0.4:
+        if r.random() < 0.4 and not noperiod:
             aargs.append("_period")
-        p = r.choice(["kappa", "rho", None])
+        p = "kappa" if collide else r.choice(["kappa", "rho", None])
         r.shuffle(aargs)
         funcs.append(_fn(nm, aargs + ([p] if p else []), lincomb(aargs, p)))
         aux.append(nm)
     # ---- utility: every state and choice enters (supported class), nonzero coefficients
     uargs = allv + ([aux[-1]] if aux else []) + ([aux[0]] if len(aux) > 1 and r.random() < 0.5 else [])
-    if r.random() < 0.35:
+    if r.random() < 0.35 and not noperiod:
         uargs.append("_period")
     r.shuffle(uargs)
-    p = "kappa" if r.random() < 0.6 else None
+    p = "kappa" if (collide or r.random() < 0.6) else None
     quad = r.choice(cchoices) if cchoices and r.random() < 0.6 else None
     funcs.append(_fn("utility", uargs + ([p] if p else []), lincomb(uargs, p, quad)))
 
@@ -167,11 +169,13 @@ def gen_model(r, *, budget=6000, max_T=4, force=None):
     if "nofilter" not in force and dstates:
         u = r.random()
         sd_fams = ["sd", "sd", "sdp", "two"] + (["sdaux"] if "sdaux" in force else [])
+        if noperiod:
+            sd_fams = [f for f in sd_fams if f != "sdp"]
         if "f1" in force:
             fam = "f1"
         elif dchoices and (force & {"mixed", "filter", "sdaux"}):
             fam = "sdaux" if "sdaux" in force else r.choice(sd_fams)
-        elif T >= 2 and u < 0.2:
+        elif T >= 2 and u < 0.2 and not noperiod:
             fam = "f1"
         elif dchoices and u < 0.6:
             fam = r.choice(sd_fams)
@@ -233,11 +237,11 @@ def gen_model(r, *, budget=6000, max_T=4, force=None):
             args = [s] + r.sample(others, k=min(len(others), r.randint(0, 2)))
             if aux and r.random() < 0.3:
                 args.append(r.choice(aux))
-            pn = "rho" if r.random() < 0.4 else None
+            pn = "kappa" if collide else ("rho" if r.random() < 0.4 else None)
             body = ["add", V(s), ["mul", N(r.choice([Fr(1, 2), Fr(1, 4), Fr(-1, 2)])), lincomb(args[1:])]]
             if pn:
                 body = ["mul", V(pn), body]
-            if r.random() < 0.3:
+            if r.random() < 0.3 and not noperiod:
                 args.append("_period")
                 body = ["add", body, ["mul", N(Fr(1, 2)), V("_period")]]
             r.shuffle(args)
@@ -247,7 +251,7 @@ def gen_model(r, *, budget=6000, max_T=4, force=None):
             want_stoch = (("stoch" in force and not stoch) or r.random() < 0.35) and "nostoch" not in force
             if want_stoch and s != filt_state_f1:
                 deps = r.sample(disc, k=min(len(disc), r.randint(1, 2)))
-                if r.random() < 0.4:
+                if r.random() < 0.4 and not noperiod:
                     deps.append("_period")
                 r.shuffle(deps)
                 funcs.append(_fn(f"next_{s}", deps, N(0), stochastic=True, ints=True))
@@ -257,7 +261,7 @@ def gen_model(r, *, budget=6000, max_T=4, force=None):
                 e = N(0)
                 for a in args:
                     e = ["add", e, V(a)]
-                if r.random() < 0.3:
+                if r.random() < 0.3 and not noperiod:
                     args.append("_period")
                     e = ["add", e, V("_period")]
                 body = ["min", e, N(n - 1)]
@@ -290,14 +294,18 @@ def gen_model(r, *, budget=6000, max_T=4, force=None):
         args = lhs_vars + ([rhs_v] if rhs_v else [])
         rhs = ["add", V(rhs_v), N(slack)] if rhs_v else N(slack)
         pn = None
-        if r.random() < 0.3:
+        if collide or r.random() < 0.3:
             pn = "kappa"
-            rhs = ["add", rhs, ["sub", V(pn), V(pn)]] if r.random() < 0.5 else ["add", rhs, ["mul", N(0), V(pn)]]
+            if collide:
+                # the parameter matters: slack grows with kappa (values of kappa are >= -1/2, keep the minimal choice admissible)
+                rhs = ["add", rhs, ["add", V(pn), N(Fr(1, 2))]]
+            else:
+                rhs = ["add", rhs, ["sub", V(pn), V(pn)]] if r.random() < 0.5 else ["add", rhs, ["mul", N(0), V(pn)]]
         r.shuffle(args)
         funcs.append(_fn(f"c{i}_constraint", args + ([pn] if pn else []), ["le", lhs, rhs], ints=False))
 
     # ---- optionally a last-period-only constraint that leaves some states without feasible choice
-    if cnames and snames and ("ninf" in force or r.random() < 0.12):
+    if cnames and snames and ("ninf" in force or r.random() < 0.12) and not noperiod:
         c = r.choice(cnames)
         s = r.choice(snames)
         pts = sorted(grid_points(G[s]))
